@@ -7,6 +7,7 @@ From Coq Require Import ZArith QArith Qpower List.
 Import ListNotations.
 Require Import TV.Base.Wrap32 TV.Base.D8 TV.gen.Gen_exact_scalar TV.Model.ExactScalar TV.Proofs.ExactScalarProofs
   TV.Proofs.CliffordProd TV.Proofs.BalanceProofs.
+Require TV.Props.C06 TV.Props.C11.
 
 (* a component with ANY number of correlated outputs: the product of its stabilizer-type term values (raw table
    values 2, 0, i^k, i^k(1+i)) is exact in ANY bracketing of the associative scan -- no int32 wrap *)
@@ -28,3 +29,9 @@ Theorem C04_balance_update : forall (k : Z) (p1 prev : Q) (bit : bool),
 Proof. exact update_commutes_with_rescaling. Qed.
 Theorem C04_balance_positive : forall (k : Z) (w : Q), 0 < w -> 0 < (2 # 1) ^ k * w.
 Proof. exact rescaling_preserves_positivity. Qed.
+
+(* component split and output index bookkeeping, for graphs of any size (= C11_components) and the final column
+   re-ordering combined[:, argsort(output_order)] for ANY partition of the outputs into per-component blocks
+   (= C06_reorder): the hypothesis of the second is a conclusion of the first *)
+Definition C04_partition := TV.Props.C11.C11_components.
+Definition C04_reorder := TV.Props.C06.C06_reorder.
